@@ -361,6 +361,7 @@ pub fn side_family(thorough: bool) -> ListFamily {
     // n-ary lists of length 0..3
     let elems: Vec<Rc<P>> = {
         let mut e: Vec<Rc<P>> = l1.iter().take(9).cloned().collect();
+        e.push(Rc::new(P::SigPlus));
         let extra = if thorough { 14 } else { 5 };
         e.extend(l1.iter().skip(9).step_by(29).take(extra).cloned());
         e
@@ -470,6 +471,10 @@ pub fn level3_slice(thorough: bool) -> BinaryWith {
     small.push(Rc::new(P::Plus(r(1, 2))));
     small.push(Rc::new(P::Pow(r(0, 5), 2)));
     small.push(Rc::new(P::Comp(Rc::new(P::Eps))));
+    small.push(Rc::new(P::Plus(r(0, 5))));
+    small.push(Rc::new(P::LoopInf(r(0, 5), 2)));
+    small.push(Rc::new(P::AllChar));
+    small.push(Rc::new(P::Concat(r(1, 1), Rc::new(P::Concat(Rc::new(P::Plus(r(0, 5))), r(2, 2))))));
     if thorough {
         small.extend(q.l1.iter().skip(81).step_by(7).take(40).cloned());
     }
@@ -520,4 +525,63 @@ pub fn level3_pairs(thorough: bool) -> PairFamily {
         }
     }
     PairFamily { u: Universe::new(0), m }
+}
+
+/// nested loops with bounds beyond 3 (the flattening rule (R^[a,b])^[c,d] -> R^[ac,bd] is only valid when the product
+/// is gap-free), alone and under complement / intersection / concatenation
+pub fn nested_loops(thorough: bool) -> ListFamily {
+    let u = Universe::new(0);
+    let r = |l: u8, h: u8| Rc::new(P::Rng(l, h));
+    let bodies: Vec<Rc<P>> = vec![r(1, 1), r(1, 2), Rc::new(P::Concat(r(1, 1), r(2, 2))), Rc::new(P::Union(r(1, 1), Rc::new(P::Concat(r(2, 2), r(2, 2))))), Rc::new(P::Opt(r(1, 1)))];
+    let nb = if thorough { 5 } else { 3 };
+    let imax = if thorough { 7 } else { 6 };
+    let mut inner: Vec<UOp> = vec![];
+    for i in 0..=imax {
+        for j in i..=imax {
+            if j >= 2 && (i, j) != (0, 0) {
+                inner.push(UOp::MkLoop(i, j));
+            }
+        }
+        if i >= 1 {
+            inner.push(UOp::LoopInf(i));
+        }
+    }
+    let mut outer: Vec<UOp> = vec![UOp::Star, UOp::Plus, UOp::Opt];
+    let omax = if thorough { 4 } else { 3 };
+    for c in 0..=omax {
+        for d in c..=omax {
+            if d >= 1 && (c, d) != (1, 1) {
+                outer.push(UOp::Loop(c, d));
+            }
+        }
+        outer.push(UOp::LoopInf(c));
+    }
+    let mut items = vec![];
+    for b in bodies.iter().take(nb) {
+        for &i in &inner {
+            let x = Rc::new(apply_u(i, b));
+            for &o in &outer {
+                let y = Rc::new(apply_u(o, &x));
+                items.push((*y).clone());
+                if matches!(o, UOp::Star | UOp::Plus | UOp::Loop(1, 2) | UOp::Loop(2, 3) | UOp::LoopInf(2)) {
+                    items.push(P::Comp(y.clone()));
+                    items.push(P::Inter(y.clone(), Rc::new(P::Pow(r(0, 5), 3))));
+                    items.push(P::Concat(r(2, 2), y.clone()));
+                }
+            }
+        }
+    }
+    ListFamily { name: format!("nested loops/u0 (inner bounds <= {}, outer bounds <= {}, {} bodies; also under complement, intersection, concatenation)", imax, omax, nb), u, items, shallow: 0 }
+}
+
+/// expressions with more than a thousand derivatives (size-dependent code paths in compile / try_compile)
+pub fn big_classics() -> ListFamily {
+    let u = Universe::new(0);
+    let r = |l: u8, h: u8| Rc::new(P::Rng(l, h));
+    let items = vec![
+        P::Loop(r(1, 1), 0, 1100),
+        P::Loop(r(1, 2), 1020, 1030),
+        P::Inter(Rc::new(P::Loop(r(0, 5), 0, 600)), Rc::new(P::Comp(Rc::new(P::Concat(Rc::new(P::All), Rc::new(P::Concat(r(1, 1), Rc::new(P::Concat(r(2, 2), Rc::new(P::All)))))))))),
+    ];
+    ListFamily { name: "big classics/u0 (1000+ derivatives)".into(), u, items, shallow: 0 }
 }
